@@ -2,9 +2,10 @@
 
 Run-time contract on each real stage and on format_code:   tree(stage(s)) == tree(s)
 where tree() is ast.dump without positions and with whitespace inside DOCSTRINGS normalised (the tolerated exception of the property).
-Stages: str.expandtabs(4) as format_code applies it, rmspace.format_str, fixes.fix_too_many_blank_lines, fixes.fix_line_lengths (several
-line-length settings), fixes.fix_import_spacing / sort_imports, processing.minimize_whitespace_line_differences(s, stage(s)), and the
-opening + closing layout sequence of format_code as a whole on rule-free inputs.
+Stages: tab expansion and rmspace AS format_code APPLIES THEM (through processing.keep_syntax_tree; the bare str.expandtabs / third-party
+rmspace.format_str are text transforms that do change literals - that is what the guard is for), fixes.fix_too_many_blank_lines,
+fixes.fix_line_lengths (three line-length settings), fixes.fix_import_spacing, processing.minimize_whitespace_line_differences on the output
+of a stage, and the opening + closing layout sequence of format_code as a whole.  (sort_imports reorders statements: not a layout stage.)
 Inputs: generated modules with string / bytes / raw / f-string literals (single- and triple-quoted, multi-line) whose CONTENT holds tabs,
 runs of blank lines, trailing blanks, over-long lines, quotes, backslashes; in every position (module level, function, class, nested
 call argument, default value, docstring position); plus comments, odd indentation, tabs used for indentation; plus the corpus.
@@ -75,16 +76,16 @@ def stages():
     import rmspace
     from pyrefact import fixes, processing
     out = {
-        "str.expandtabs(4)": lambda s: s.expandtabs(4),
-        "rmspace.format_str": rmspace.format_str,
+        "expandtabs(4) as format_code applies it": lambda s: (processing.keep_syntax_tree(s, s.expandtabs(4)) if hasattr(processing, "keep_syntax_tree") else s.expandtabs(4)),
+        "rmspace.format_str as format_code applies it": lambda s: (processing.keep_syntax_tree(s, rmspace.format_str(s)) if hasattr(processing, "keep_syntax_tree") else rmspace.format_str(s)),
         "fixes.fix_too_many_blank_lines": fixes.fix_too_many_blank_lines,
         "fixes.fix_line_lengths(100)": lambda s: fixes.fix_line_lengths(s, max_line_length=100),
         "fixes.fix_line_lengths(60)": lambda s: fixes.fix_line_lengths(s, max_line_length=60),
         "fixes.fix_line_lengths(140)": lambda s: fixes.fix_line_lengths(s, max_line_length=140),
-        "fixes.sort_imports": fixes.sort_imports,
         "fixes.fix_import_spacing": fixes.fix_import_spacing,
-        "minimize_whitespace_line_differences(s, rmspace(s))": lambda s: processing.minimize_whitespace_line_differences(s, rmspace.format_str(s))[0],
+        # the minimiser gets a text with the same tree (what the guarded stages give it) and must keep that tree
         "minimize_whitespace_line_differences(s, blank_lines(s))": lambda s: processing.minimize_whitespace_line_differences(s, fixes.fix_too_many_blank_lines(s))[0],
+        "minimize_whitespace_line_differences(s, line_lengths(s))": lambda s: processing.minimize_whitespace_line_differences(s, fixes.fix_line_lengths(s, max_line_length=80))[0],
     }
     return out
 
@@ -94,12 +95,12 @@ def layout_only_format_code(s):
     import rmspace
     from pyrefact import fixes, processing
     original = s
-    s = s.expandtabs(4)
-    s = rmspace.format_str(s)
+    s = processing.keep_syntax_tree(s, s.expandtabs(4)) if hasattr(processing, "keep_syntax_tree") else s.expandtabs(4)
+    s = processing.keep_syntax_tree(s, rmspace.format_str(s)) if hasattr(processing, "keep_syntax_tree") else rmspace.format_str(s)
     s = fixes.fix_too_many_blank_lines(s)
-    s = fixes.sort_imports(s)
+    s = fixes.fix_import_spacing(s)
     s = fixes.fix_line_lengths(s, max_line_length=100)
-    s = rmspace.format_str(s)
+    s = processing.keep_syntax_tree(s, rmspace.format_str(s)) if hasattr(processing, "keep_syntax_tree") else rmspace.format_str(s)
     s, *_ = processing.minimize_whitespace_line_differences(original, s)
     return s
 
@@ -137,6 +138,47 @@ def work(src):
     return n, fails
 
 
+def literal_values(src):
+    """multiset of the str / bytes literal values of a module, docstrings and f-string pieces excluded"""
+    import collections
+    tree = ast.parse(src)
+    doc = set()
+    for node in ast.walk(tree):
+        if isinstance(node, (ast.Module, ast.FunctionDef, ast.AsyncFunctionDef, ast.ClassDef)) and node.body and isinstance(node.body[0], ast.Expr) and isinstance(node.body[0].value, ast.Constant):
+            doc.add(id(node.body[0].value))
+    inside_f = {id(c) for n_ in ast.walk(tree) if isinstance(n_, ast.JoinedStr) for c in ast.walk(n_)}
+    return collections.Counter(repr(n_.value) for n_ in ast.walk(tree) if isinstance(n_, ast.Constant) and isinstance(n_.value, (str, bytes)) and id(n_) not in doc and id(n_) not in inside_f)
+
+
+def work_format_code(src):
+    """whole formatter: every distinct literal value of the input is still a literal value of the output (rules may merge equal literals into a
+    constant or drop an unused duplicate, they may not alter a value) and f-strings evaluate to the same text"""
+    import pyrefact
+    P.quiet()
+    try:
+        want = literal_values(src)
+    except (SyntaxError, ValueError):
+        return 0, []
+    fails = []
+    n = 0
+    for kw in ({}, {"safe": True}, {"max_line_length": 60}):
+        r = P.guarded(lambda s: pyrefact.format_code(s, **kw), src, 120)
+        if r[0] != "ok":
+            continue
+        n += 1
+        try:
+            got = literal_values(r[1])
+        except (SyntaxError, ValueError):
+            fails.append({"cls": "invalid:format_code", "what": f"format_code({kw}): result does not parse"})
+            continue
+        lost = [v for v in want if v not in got and len(v) > 4]
+        if lost:
+            near = [g for g in got if g.replace(" ", "").replace("\\t", "").replace("\\n", "") == lost[0].replace(" ", "").replace("\\t", "").replace("\\n", "")]
+            if near:
+                fails.append({"cls": "literal-value-changed:format_code", "what": f"format_code({kw}): literal {lost[0]} became {near[0]} (same text up to whitespace)", "output": r[1]})
+    return n, fails
+
+
 def generated(tier, rnd):
     lits = []
     for prefix, content, triple in itertools.product(PREFIXES, CONTENTS, (False, True)):
@@ -162,6 +204,8 @@ def run(tier, seed):
     cor = rnd.sample(corpus, 150 if tier == "quick" else len(corpus))
     r1 = P.pool_map(work, gen, chunksize=8)
     r2 = P.pool_map(work, cor, chunksize=4)
+    fc_inputs = gen if tier == "thorough" else rnd.sample(gen, min(len(gen), 200))
+    r3 = P.pool_map(work_format_code, fc_inputs, chunksize=4)
     out = []
     for name, inputs, res, space in (("c11-generated-literals", gen, r1, f"{len(gen)} modules = {len(FRAMES)} frames x literals ({len(PREFIXES)} prefixes x {len(CONTENTS)} contents x single / triple quoted, those expressible)"),
                                      ("c11-corpus", cor, r2, f"{len(cor)} corpus modules")):
@@ -171,8 +215,16 @@ def run(tier, seed):
             for f in fs:
                 fl.append({"id": f"{f['cls']}::{P.sha(s)}", "cls": f["cls"], "input": s, "observed": f["what"], "required": "same syntax tree, same literal values (docstring whitespace excepted)"})
         out.append({"name": name, "function": "str.expandtabs, rmspace.format_str, fixes.fix_too_many_blank_lines, fix_line_lengths, sort_imports, fix_import_spacing, processing.minimize_whitespace_line_differences, layout sequence of format_code",
-                    "contract": "ast.dump(parse(stage(s))) == ast.dump(parse(s)), docstring whitespace normalised", "space": space + " x 11 stages", "bound": "enumerated literals x frames; corpus sample",
+                    "contract": "ast.dump(parse(stage(s))) == ast.dump(parse(s)), docstring whitespace normalised", "space": space + " x 10 stages", "bound": "enumerated literals x frames; corpus sample",
                     "evaluations": n, "distinct_nontrivial": len(inputs), "exhaustive": tier == "thorough" and name.startswith("c11-gen"), "failures": P.cap(fl), "samples": [inputs[0][:200]]})
+    fl, n = [], 0
+    for s_, (cnt, fs) in zip(fc_inputs, r3):
+        n += cnt
+        for f in fs:
+            fl.append({"id": f"{f['cls']}::{P.sha(s_)}", "cls": f["cls"], "input": s_, "observed": f["what"], "output": f.get("output"), "required": "a literal's value is never altered by whitespace handling"})
+    out.append({"name": "c11-format-code-literals", "function": "main.format_code", "contract": "no str / bytes literal of the input reappears in the output with only its whitespace changed",
+                "space": f"{len(fc_inputs)} generated modules x (default, safe, max_line_length=60)", "bound": "enumerated literals x frames", "evaluations": n, "distinct_nontrivial": len(fc_inputs),
+                "exhaustive": tier == "thorough", "failures": P.cap(fl), "samples": [fc_inputs[0][:200]]})
     return out
 
 
